@@ -179,6 +179,15 @@ Example C11_monitor_rejects_bad_traces :
   monitor (hdr [(MintSeq 0, Ok (Some 0), ob (Some 0) None []);
                 (ApproveForAll [1] 1 2 50%Z, Ok None, ob (Some 0) None [((1, 2), true)]);
                 (TransferFrom [2] 2 0 2 0, Ok None, ob (Some 2) None [((1, 2), true)])]) = 3 /\
+  (* an approval given until ledger 5 000 000 is no longer reported after a long gap although it is
+     neither expired nor revoked nor cleared by a move (a lapsed storage entry) *)
+  monitor (hdr [(MintSeq 0, Ok (Some 0), ob (Some 0) None []);
+                (Approve [0] 0 3 0 5000000%Z, Ok None, ob (Some 0) (Some 3) []);
+                (Advance 600000, Ok None, ob (Some 0) None [])]) = 3 /\
+  (* the same for an operator *)
+  monitor (hdr [(MintSeq 0, Ok (Some 0), ob (Some 0) None []);
+                (ApproveForAll [0] 0 2 5000000%Z, Ok None, ob (Some 0) None [((0, 2), true)]);
+                (Advance 600000, Ok None, ob (Some 0) None [((0, 2), false)])]) = 3 /\
   (* the right account but its authorisation is not attached to the call *)
   monitor (hdr [(MintSeq 0, Ok (Some 0), ob (Some 0) None []);
                 (Burn [1] 0 0, Ok None, ob None None [])]) = 2.
